@@ -395,6 +395,19 @@ def gen_desc(rng: random.Random, pname: str, thorough: bool) -> dict:
     pins = rng.choice([0.0, 0.0, 0.1, 0.3])
     two = [q for q in range(n) if radixes[q] == 2]
     three = [q for q in range(n) if radixes[q] == 3]
+    # round 4 (seeded C08-4 was missed): SPARSE circuits - multi-qudit gates
+    # only on a subset of the qudits, the other qudits carry single-qudit
+    # gates only (or nothing); with more such qudits than the block size the
+    # partitioners must pack them into several blocks of at most k qudits
+    sparse = fam == 'random' and not big and not dense and rng.random() < 0.22
+    active = set(range(n))
+    if sparse:
+        n = rng.choice([5, 6, 7, 8, 9, 10, 12])
+        radixes = [2] * n
+        two, three = list(range(n)), []
+        k = rng.choice([2, 2, 3, 3, 4])
+        active = set(rng.sample(range(n), rng.choice([0, 2, 2, 3, max(2, n - k - 2)])))
+        nsteps = rng.choice([n, 2 * n, 3 * n, 40])
     steps = []
     pc = 0
     ncyc = 0
@@ -433,6 +446,8 @@ def gen_desc(rng: random.Random, pname: str, thorough: bool) -> dict:
                 g = gates()[nm]
                 # a location whose radixes match the gate's
                 pools = [two if rr == 2 else three for rr in g.radixes]
+                if sparse and width >= 2:
+                    pools = [[q for q in p if q in active] for p in pools]
                 for _try in range(6):
                     cand = [rng.choice(p) if p else None for p in pools]
                     if None in cand or len(set(cand)) != len(cand):
@@ -471,7 +486,8 @@ def gen_desc(rng: random.Random, pname: str, thorough: bool) -> dict:
         arg2 = rng.choice([0, 1])        # coupling: all-to-all / line
     return {'radixes': radixes, 'steps': steps, 'pre': pre, 'pass': pname,
             'k': k, 'arg2': arg2, 'npseed': rng.getrandbits(31),
-            'bin_id0': rng.randrange(8), 'family': fam}
+            'bin_id0': rng.randrange(8),
+            'family': 'sparse' if sparse else fam}
 
 
 def gen_qdense(rng: random.Random) -> dict:
